@@ -56,16 +56,17 @@ def decodeStrict : (fuel : Nat) → Bytes → List Nat → Sum Int (List Nat)
       | .char n wc => decodeStrict f (s.drop n) (wc :: acc)
       | .nul => .inr acc.reverse
       | .invalid => .inl 1          -- errno == EILSEQ → FNM_NOMATCH
-      | .incomplete => .inl (-1)    -- errno untouched (0 in the harness) → -1
+      | .incomplete => .inr acc.reverse   -- F43: mbsnrtowcs stops at the cut, the count is returned
 
-/-- lax decode of the subject (`mbstr_decode(..., true)`): undecodable bytes stand for themselves -/
+/-- the char-by-char pass of `mbstr_decode(..., true)`: undecodable bytes stand for themselves
+    (it runs only when the full strict decode failed, i.e. met an INVALID sequence: `decodeSubject`) -/
 def decodeLax : (fuel : Nat) → Bytes → List Nat → List Nat
   | 0, _, acc => acc.reverse
   | f + 1, s, acc =>
     match s with
     | [] => acc.reverse
     | b :: r =>
-      -- the code first tries a full strict decode; on failure restarts char by char: same result
+      -- same result as the strict decode on the valid part
       match utf8Mbr s with
       | .char n wc => decodeLax f (s.drop n) (wc :: acc)
       | .nul => acc.reverse
@@ -81,7 +82,7 @@ def bitsLine (lo sh cnt : Nat) : String :=
     one ++ one)
 
 /-- which `mbrtowc` failure makes the strict scan stop first (`some true` = invalid ⇒ EILSEQ,
-    `some false` = incomplete ⇒ errno untouched, `none` = none) -/
+    `some false` = cut inside a character ⇒ no failure since F43, `none` = none) -/
 def firstFail : (fuel : Nat) → Bytes → Option Bool
   | 0, _ => none
   | f + 1, s =>
@@ -91,19 +92,6 @@ def firstFail : (fuel : Nat) → Bytes → Option Bool
       | .nul => none
       | .invalid => some true
       | .incomplete => some false
-
-/-- does the char-by-char pass of `mbstr_decode(..., allow_invalid)` meet an invalid sequence -/
-def laxInvalid : (fuel : Nat) → Bytes → Bool
-  | 0, _ => false
-  | f + 1, s =>
-    match s with
-    | [] => false
-    | _ :: r =>
-      match utf8Mbr s with
-      | .char n _ => laxInvalid f (s.drop n)
-      | .nul => false
-      | .invalid => true
-      | .incomplete => laxInvalid f r
 
 /-- new errno state after an op: what the output says after `e=` (the harness keeps the errno a
     call left behind as the entry errno of the next call) -/
@@ -211,18 +199,22 @@ def step (st : String) (line : String) : String × String :=
           if fl > 31 ∨ p.contains 0 ∨ str.contains 0 then bad
           else
             match decodeStrict (p.length + 1) p [] with
-            | .inl rc =>
-              -- invalid pattern: mbrtowc sets EILSEQ → FNM_NOMATCH; incomplete: errno is NOT set and
-              -- the code tests the caller's errno: -1 unless that happened to be EILSEQ
-              if rc = 1 then "1 e=EILSEQ ## 1"
-              else if st = "EILSEQ" then "1 e=EILSEQ ## 1" else "-1 e=" ++ st ++ " ## -1"
+            | .inl _ =>
+              -- invalid pattern: mbrtowc sets EILSEQ → FNM_NOMATCH (a pattern cut inside a character
+              -- no longer fails since F43: the result does not depend on the caller's errno any more)
+              "1 e=EILSEQ ## 1"
             | .inr wp =>
-              let ws := decodeLax (str.length + 1) str []
+              -- subject: the full strict decode succeeds unless it meets an invalid sequence (a cut
+              -- character at the end is dropped, F43); only then the char-by-char pass runs
+              let ws := match firstFail (str.length + 1) str with
+                | some true => decodeLax (str.length + 1) str []
+                | _ => match decodeStrict (str.length + 1) str [] with
+                  | .inr w => w
+                  | .inl _ => []
               let f := FnFlags.ofNat fl
               let e := match firstFail (str.length + 1) str with
-                | none => st
                 | some true => "EILSEQ"
-                | some false => if laxInvalid (str.length + 1) str then "EILSEQ" else st
+                | _ => st
               toString (fnmatchSpec f wp ws) ++ " e=" ++ e ++ " ## " ++ toString (wfnmatch f wp ws)
         | _, _, _ => bad
       else bad
